@@ -316,8 +316,11 @@ def run(tier, t0):
                 for d in f.defs.get(l, []):
                     if d['kind'] == 'call':
                         tdef = show(f.expand(f.call_tree(d['term'])))
+        # the copy is the element of output["threads"] at the very index that is also reported as threads_index:
+        # clone(output["threads"].as_array()[requesting_thread]) - not a search by thread id (ids can repeat)
+        WANT_T = '(<serde_json::Value as std::clone::Clone>::clone (<std::vec::Vec<T, A> as std::ops::Index<I>>::index (std::option::Option::unwrap (serde_json::Value::as_array (std::option::Option::unwrap (serde_json::Value::get_mut output "threads")))) (Some.0 self.requesting_thread)))'
         ok = ('requesting_thread' in ins['threads_index'][1] and 'json_registers' in ins['registers'][1] and ins['crashing_thread'][1] == 'thread'
-              and 'Clone>::clone' in tdef and 'requesting_thread' in tdef and '"threads"' in tdef)
+              and tdef == WANT_T)
     if not ok:
         res.violation('C15.4', 'C15.4|crashing_thread', f, f.line, 'crashing_thread is not clone(threads[requesting_thread]) + registers + threads_index: %s' % {k: v[1][:80] for k, v in ins.items()})
     # ---- C15.5 single serialiser
